@@ -221,6 +221,28 @@ func Uneval(props bool, thorough bool) *Set {
 		}
 	}
 	// evaluations at child locations, or reached through the reference forms, with hand-written shapes
+	// one $defs entry applied several times to the same instance location (a per-call memo of
+	// successful applications must not lose what the later applications evaluated)
+	for _, ref := range []string{`{"$ref":"#/$defs/base"}`, `{"$dynamicRef":"#b"}`} {
+		base, more, kwd := `{"$dynamicAnchor":"b","properties":{"a":{"type":"integer"}}}`, `"properties":{"b":true}`, kw
+		if !props {
+			base, more = `{"$dynamicAnchor":"b","prefixItems":[{"type":"integer"}]}`, `"prefixItems":[true,true]`
+		}
+		r := ref[1 : len(ref)-1]
+		for _, x := range []string{
+			`{"$defs":{"base":` + base + `},"allOf":[` + ref + `,{` + r + `,"` + kwd + `":false}]}`,
+			`{"$defs":{"base":` + base + `},"allOf":[{` + r + `,"` + kwd + `":false},` + ref + `]}`,
+			`{"$defs":{"base":` + base + `},"anyOf":[{` + r + `,"required":["zz"],"minItems":9},{` + r + `,"` + kwd + `":false}]}`,
+			`{"$defs":{"base":` + base + `},"anyOf":[{` + r + `,` + more + `,"required":["b"],"minItems":2,"` + kwd + `":false},{` + r + `,"` + kwd + `":false}]}`,
+			`{"$defs":{"base":` + base + `},"oneOf":[{` + r + `,"required":["b"],"minItems":2},{` + r + `,"` + kwd + `":false}]}`,
+			`{"$defs":{"base":` + base + `},` + r + `,"allOf":[` + ref + `],"` + kwd + `":false}`,
+			`{"$defs":{"base":` + base + `},"if":` + ref + `,"then":{` + r + `,"` + kwd + `":false},"else":false}`,
+			`{"$defs":{"base":` + base + `},"not":{"not":` + ref + `},"allOf":[{` + r + `,"` + kwd + `":{"type":"string"}}]}`,
+			`{"$defs":{"base":` + base + `},"properties":{"a":` + ref + `},"items":` + ref + `,` + r + `,"` + kwd + `":false}`,
+		} {
+			s.Add("Ushared", x)
+		}
+	}
 	if props {
 		for _, x := range []string{
 			`{"patternProperties":{"^a":{"properties":{"b":true}}},"unevaluatedProperties":false}`,
